@@ -51,6 +51,8 @@ XferClauses(e) ==
         \cup (IF islink /\ e.sym /\ \E k \in 1..Len(e.new) : ~e.new[k].sym THEN {"C18-symlink-does-not-point-to-source"} ELSE {})
         \cup (IF ~islink /\ \E k \in 1..Len(e.new) : e.new[k].sym THEN {"C18-copy-is-a-link"} ELSE {})
         \cup (IF e.src_changed # <<>> THEN {"C18-source-content-changed"} ELSE {})
+        \* (a file that a recorder finalized in the source while mv was running is taken along or left, never lost)
+        \cup (IF Has(e, "live_lost") /\ e.live_lost > 0 THEN {"C18-mv-removed-a-file-it-did-not-transfer"} ELSE {})
         \cup (IF e.cmd = "mv" THEN (IF after # src \ X THEN {"C18-source-not-reduced-by-exactly-the-transferred-set"} ELSE {})
               ELSE (IF after # src THEN {"C18-source-changed-by-cp-or-ln"} ELSE {}))
 
